@@ -118,6 +118,35 @@ fn exercise(style: ProgressStyle, nticks: u64, hist: &[String], stats: &mut Stat
             }
         }
     }
+    // the style is installed on a live bar whose tick count was accumulated under another spinner
+    // (and the other way round): "every bar state, tick count" includes counts the new style never produced
+    let catcher = LineCatcher::new(80);
+    for t in [1u64, 2, 3, 5, 11, 12, 13, 25] {
+        for dir in 0..2 {
+            let step = format!("{} after {t} ticks, then set_message / force_draw / tick / finish", if dir == 0 { "set_style(this style) on a bar with a 12-string spinner" } else { "set_style(12-string spinner) on a bar with this style" });
+            let long = ProgressStyle::with_template("{spinner} {msg} {bar:10} {pos}/{len}").unwrap().tick_strings(&["0", "1", "2", "3", "4", "5", "6", "7", "8", "9", "A", "done"]);
+            let (first, second) = if dir == 0 { (long, style.clone()) } else { (style.clone(), long) };
+            let r = catch(|| {
+                let pb = bar_on(&catcher, Some(5), first).with_message("m");
+                for _ in 0..t {
+                    pb.tick();
+                }
+                pb.set_style(second);
+                pb.set_message("x");
+                let mut out = frame_lines(&catcher, &pb);
+                pb.tick();
+                pb.set_prefix("q");
+                pb.finish();
+                out.extend(frame_lines(&catcher, &pb));
+                out
+            });
+            match r {
+                Ok(lines) => h = hash_of(&(h, lines.len())),
+                Err(p) => return Err(mk(format!("accepted style panics in draw: {}", panic_class(&p)), step, p)),
+            }
+            stats.bump("draws", 4);
+        }
+    }
     Ok(h)
 }
 
@@ -186,7 +215,7 @@ pub fn meta(tier: Tier) -> Meta {
     let k = if tier == Tier::Quick { 3 } else { 5 };
     Meta {
         level: "exploration",
-        rule: format!("every builder argument: tick_chars over strings of <= 3 chars from {{a, 好, ZWSP}}, tick_strings over <= 3 strings from {{\"\", a, ab, 好}}, progress_chars over <= {k} clusters from {{a, █, 好, ZWSP, e+combining acute}}, each on 12 templates; every accepted style is asked for tick strings at 0,1,n-1,n,n+1,u64::MAX and drawn at widths 1,5,80 x 7 position/length pairs x 3 statuses after up to 2n+1 ticks; oracle: explicit rejection at build time XOR never panics; distinct = distinct rendered shapes / rejection messages; non-trivial = accepted style"),
+        rule: format!("every builder argument: tick_chars over strings of <= 3 chars from {{a, 好, ZWSP}}, tick_strings over <= 3 strings from {{\"\", a, ab, 好}}, progress_chars over <= {k} clusters from {{a, █, 好, ZWSP, e+combining acute}}, each on 12 templates; every accepted style is asked for tick strings at 0,1,n-1,n,n+1,u64::MAX and drawn at widths 1,5,80 x 7 position/length pairs x 3 statuses after up to 2n+1 ticks, and installed with set_style on a live bar (and replaced by another spinner) after 1..25 ticks under the other style, then redrawn without a tick; oracle: explicit rejection at build time XOR never panics; distinct = distinct rendered shapes / rejection messages; non-trivial = accepted style"),
         assumptions: vec!["a panic message is 'explicit' unless it is an arithmetic, index/slice or unwrap message".into()],
         bounds: json!({"max_clusters": k}),
         exhaustive: true,
